@@ -451,13 +451,15 @@ func (t *gtree) finish(r *result) {
 			}
 		}
 	}
+	patience := bound
 	for i, n := range t.nodes {
 		if n.pool != nil {
 			t0 := time.Now()
-			if !withinPool(n.pool, func() time.Duration { return time.Since(t0) }, bound, n.pool.ShutdownComplete.Wait) {
+			if !withinPool(n.pool, func() time.Duration { return time.Since(t0) }, patience, n.pool.ShutdownComplete.Wait) {
 				sig := classifyPool(n.pool, "complete")
 				sig["via"] = "Group.Shutdown"
 				r.fail("termination", fmt.Sprintf("pool %d: ShutdownComplete.Wait did not return after Group.Shutdown; %v", i, sig), sig)
+				patience = 2 * time.Second // the finding is made: the remaining pools get the time the first one had, not 30 s each
 			}
 		}
 	}
@@ -648,12 +650,14 @@ func groupStress(r *result, seed uint64) {
 	if !within(bound, root.Shutdown) {
 		r.fail("termination", "root.Shutdown did not return", map[string]string{"api": "workerpool.Group.Shutdown", "effect": "hang"})
 	}
+	patience := bound
 	for i, p := range pools {
 		t0 := time.Now()
-		if !withinPool(p, func() time.Duration { return time.Since(t0) }, bound, p.ShutdownComplete.Wait) {
+		if !withinPool(p, func() time.Duration { return time.Since(t0) }, patience, p.ShutdownComplete.Wait) {
 			sig := classifyPool(p, "complete")
 			sig["via"] = "Group.Shutdown"
 			r.fail("termination", fmt.Sprintf("pool %d not complete after Group.Shutdown; %v", i, sig), sig)
+			patience = 2 * time.Second
 		}
 	}
 }
